@@ -14,7 +14,8 @@ RULE = (
     "{2^62, -2^62}, mixed) in three shape classes built by construction so that both construction strategies run: "
     "'small' (< 5 distinct values), 'dense-many' (>= 5 values, many uncommon cells -> per-value numpy.where) and "
     "'sparse-many' (5..12 distinct values, 80..400 rows, so few uncommon cells that the per-row scan is selected). "
-    "Options: common omitted / a value of the array / a value absent from it; counts omitted / exact dict; mapping "
+    "The array is handed over as int64 / the narrowest (un)signed dtype / int32 / uint64, C-ordered / Fortran-ordered / "
+    "a strided view / read-only / a nested list, and its buffer is overwritten after the call (the index owns its content). Options: common omitted / a value of the array / a value absent from it; counts omitted / exact dict / exact dict plus absent categories with count 0; mapping "
     "omitted / injective / a permutation of the array's own codes / many-to-one (several values onto the common one, all values onto one); on the way back "
     "the default dtype, an explicit int64, an explicit fitted dtype, or a value mapping. Oracle: round trip equals "
     "the (mapped) input element for element and in shape; the produced index is well-formed (C07 predicate) and its "
@@ -92,8 +93,13 @@ def cases(draw, tier):
     else:
         case["common"] = None
     case["counts"] = draw(st.booleans())
+    # counts for the variable's whole category list: categories that do not occur are listed with count 0
+    case["counts_extra"] = draw(st.lists(st.sampled_from(outside), unique=True, max_size=2)) if (
+        case["counts"] and outside and draw(st.integers(0, 2)) == 0) else []
     mk = draw(st.sampled_from(["none", "none", "injective", "many", "onto_common", "all_onto_one", "permute"]))
-    keys = sorted(set(present) | ({case["common"]} if case["common"] is not None else set()))
+    # the mapping covers every category the caller names: array values, the common value, and the counts' keys
+    keys = sorted(set(present) | ({case["common"]} if case["common"] is not None else set())
+                  | set(case["counts_extra"]))
     if mk == "none" or (not keys):
         case["mapping"] = None
     else:
@@ -117,9 +123,38 @@ def cases(draw, tier):
                 m = [(k, ct if k in extra else v) for k, v in m]
         case["mapping"] = [[k, v] for k, v in m]
     case["mapkind"] = mk if case["mapping"] is not None else "none"
+    # the FORM of the input array: element type (any integer dtype that holds the values) and memory layout
+    case["in_dtype"] = draw(st.sampled_from(["int64", "int64", "narrow", "narrow_signed", "uint64", "int32"]))
+    case["layout"] = draw(st.sampled_from(["C", "C", "F", "strided", "readonly", "list"]))
     case["back"] = draw(st.sampled_from(["default", "default", "int64", "fitted", "mapping"]))
     case["backshift"] = draw(st.integers(-5, 300))
     return case
+
+
+def as_given(a, in_dtype, layout):
+    """The same values as another integer dtype / memory layout (never changes a value)."""
+    import numpy
+
+    lo, hi = (int(a.min()), int(a.max())) if a.size else (0, 0)
+    names = {"narrow": ["uint8", "int8", "uint16", "int16", "uint32", "int32", "uint64", "int64"],
+             "narrow_signed": ["int8", "int16", "int32", "int64"], "uint64": ["uint64", "int64"],
+             "int32": ["int32", "int64"], "int64": ["int64"]}[in_dtype]
+    for name in names:
+        ii = numpy.iinfo(name)
+        if ii.min <= lo and hi <= ii.max:
+            a = a.astype(name)
+            break
+    if layout == "F" and a.ndim == 2:
+        a = numpy.asfortranarray(a)
+    elif layout == "strided":
+        big = numpy.zeros(tuple(2 * s for s in a.shape), dtype=a.dtype)
+        view = big[tuple(slice(None, None, 2) for _ in a.shape)]
+        view[...] = a
+        a = view
+    elif layout == "readonly":
+        a = a.copy()
+        a.setflags(write=False)
+    return a
 
 
 def flat_values(case):
@@ -142,23 +177,31 @@ def check(case, rec):
 
     flat = flat_values(case)
     a = numpy.array(flat, dtype=numpy.int64).reshape(case["shape"])
+    a = as_given(a, case.get("in_dtype", "int64"), case.get("layout", "C"))
     kwargs = {}
     if case["common"] is not None:
         kwargs["common"] = case["common"]
     present = sorted(set(flat))
     if case["counts"]:
         kwargs["counts"] = {v: flat.count(v) for v in present}
+        for v in case.get("counts_extra", []):
+            kwargs["counts"].setdefault(v, 0)
     m1 = None
     if case["mapping"] is not None:
         m1 = {k: v for k, v in case["mapping"]}
         kwargs["mapping"] = dict(m1)
     if a.size == 0 and case["common"] is None and not m1:
         return  # documented ValueError: nothing to infer a common value from
+    given = a.tolist() if (case.get("layout") == "list" and a.size) else a  # an empty nested list has no shape
     snap = (a.tobytes(), dict(kwargs.get("counts") or {}), dict(kwargs.get("mapping") or {}))
-    with libcall("from_array"):
-        ix = iindex.from_array(a, **kwargs)
+    with libcall("from_array(%s %s array)" % (a.dtype, case.get("layout", "C"))):
+        ix = iindex.from_array(given, **kwargs)
     if (a.tobytes(), dict(kwargs.get("counts") or {}), dict(kwargs.get("mapping") or {})) != snap:
         raise Violation("from_array modified its arguments", sig="from_array modified arguments")
+    a = numpy.array(flat, dtype=numpy.int64).reshape(case["shape"])
+    if isinstance(given, numpy.ndarray) and given.flags.writeable and given.size:
+        # the index must own its content: the caller re-uses the input buffer afterwards
+        given[...] = given.reshape(-1)[0]
     mapped = a if m1 is None else numpy.array([m1[x] for x in flat], dtype=numpy.int64).reshape(a.shape)
     if tuple(ix.shape) != a.shape:
         raise Violation("from_array: index shape %r, array shape %r" % (ix.shape, a.shape), sig="from_array shape")
